@@ -803,6 +803,11 @@ func TestDriver(t *testing.T) {
 		}
 	}
 
+	// ---- phase 3b: requests that overlap in time (a slow requester while another request is served), and
+	// the network-free core of it: prepare A, prepare B, read A
+	d.aliasingProbe()
+	d.overlappingRequests()
+
 	// ---- phase 4: what a mock network cannot show (real deadlines, the real resource manager)
 	d.realTransport()
 
